@@ -1,5 +1,6 @@
 import HapModel.Drv.Basic
 import HapModel.Model.CliParse
+import HapModel.Model.OutPrefix
 namespace Drv
 open Lean CliParse
 
@@ -49,5 +50,10 @@ def hCliParse (j : Json) : R Json := do
       | some l => jArr (l.map jStr)
     pure <| jObj [("tableOK", jBool (tableOK T)), ("error", Json.null), ("pos", jArr (pos.map jStr)), ("params", jArr params),
                   ("samples", samples), ("ids", ids)]
+
+/-- {"op":"bpPrefix","out":"…"} → {"prefix":"…"}: the name under which `simgenotype --out …` writes its breakpoints (+ ".bp") -/
+def hBpPrefix (j : Json) : R Json := do
+  let out ← strF j "out"
+  pure <| jObj [("prefix", jStr (String.ofList (OutPrefix.bpPrefix out.toList)))]
 
 end Drv
